@@ -30,6 +30,17 @@ CORPUS = [
          new="\th32 ^= h32 >> 12\n\th32 *= prime3\n\th32 ^= h32 >> 16\n\n\treturn h32\n}\n\n// Portable version of ChecksumZero."),
     dict(name="C13-reset-keeps-buffer", kind="break", props=["C13"], file="internal/xxh32/xxh32zero.go",
          old="\txxh.totalLen = 0\n\txxh.bufused = 0\n}", new="\txxh.totalLen = 0\n}"),
+    # ---- C16 / C02 (Reader window and delivery order) ----
+    dict(name="C16-window-half-size", kind="break", props=["C16"], file="reader.go",
+         old="preserveSize := 64*1024 - len(dst)", new="preserveSize := 32*1024 - len(dst)"),
+    dict(name="C16-keeps-head-of-dictionary", kind="break", props=["C16"], file="reader.go",
+         old="r.dict = r.dict[len(r.dict)-preserveSize:]", new="r.dict = r.dict[:preserveSize]"),
+    dict(name="C16-benign-trim-earlier", kind="benign", props=["C16"], file="reader.go",
+         old="if len(r.dict)+len(dst) > 128*1024 {", new="if len(r.dict)+len(dst) > 96*1024 {"),
+    dict(name="C02-buffered-copy-from-start", kind="break", props=["C02"], file="reader.go",
+         old="bn = copy(buf, r.data[r.idx:])", new="bn = copy(buf, r.data)"),
+    dict(name="C02-direct-path-skips-dictionary", kind="break", props=["C16"], file="reader.go",
+         old="\t\tr.dict = append(r.dict, dst...)\n\t}\n\tr.cum += uint32(len(dst))", new="\t\tif !direct {\n\t\t\tr.dict = append(r.dict, dst...)\n\t\t}\n\t}\n\tr.cum += uint32(len(dst))"),
     # ---- Option closures (C09 / C17 / C18) ----
     dict(name="C09-blocksize-accepts-8mb", kind="break", props=["C09"], file="options.go",
          old="\t\tcase *Writer:\n\t\t\tsize := uint32(size)\n\t\t\tif !lz4block.Index(size).IsValid() {", new="\t\tcase *Writer:\n\t\t\tsize := uint32(size)\n\t\t\tif !lz4block.IsValid(size) {"),
